@@ -3,6 +3,7 @@ import ecache
 import edm
 import eevent
 import tables
+import esubst
 
 LEVEL = "E-CACHE + E-CACHE.dm + E-EVENT + E-TABLE tags"
 
@@ -34,4 +35,9 @@ def run(ctx):
     eevent.check_manager(ctx, F, "oxidd_manager_pointer")
     n = eevent.check_manager_data_forwarding(ctx, F)
     ctx.floor("E-EVENT.forward", "forwarded events of manager-data structs", n, 40)
+    ctx.explain("E-CACHE.substid: substitute memoises under (Substitute, f, substitution id); new_substitution_id draws "
+                "from one atomic counter that is wider than the id (cannot wrap into the id range again), range-checked "
+                "by an ordered comparison before narrowing; Substitution::id implementations return the stored id.")
+    n = esubst.run(ctx, F)
+    ctx.floor("E-CACHE.substid", "obligations on substitution ids", n, 4)
     ctx.not_decided = "independence of results from eviction order as behaviour; hash quality"
